@@ -91,7 +91,8 @@ def raw_val(v, strict=True):
             tag = "af"
         else:
             raise BadType(f"array dtype {v.dtype}")
-        return [tag, [int(x) for x in v.shape], v.tobytes().hex()]
+        # elements in LOGICAL (C, row-major) order — never the array's own memory layout
+        return [tag, [int(x) for x in v.shape], np.ascontiguousarray(v).reshape(-1).tobytes(order="C").hex()]
     if not strict:
         if t is np.int64:
             return ["i", int(v)]
@@ -211,8 +212,50 @@ def rand_int(rng):
 
 
 def rand_shape(rng):
-    nd = rng.choice([0, 1, 1, 1, 2, 2, 3])
+    nd = rng.choice([0, 1, 1, 2, 2, 2, 3])
+    if nd == 2 and rng.random() < 0.6:
+        return (rng.choice([2, 3, 4, 5]), rng.choice([2, 3, 4, 5]))      # both dims > 1: layout matters
     return tuple(rng.choice([0, 1, 2, 3, 5]) if rng.random() < 0.9 else rng.randrange(0, 12) for _ in range(nd))
+
+
+LAYOUTS = ["C", "F", "T", "colstride", "rowstride", "reversed", "broadcast", "offset"]
+
+
+def with_layout(rng, a):
+    """the same logical array (same shape, dtype, element at every index) in another MEMORY layout: C order,
+    Fortran order, transposed view, non-contiguous slices, negative strides, a view into a larger buffer, or a
+    stride-0 broadcast view (whose logical content is then the repeated row). Returns (array, layout name)."""
+    lay = rng.choice(LAYOUTS)
+    if a.ndim == 0 or a.size == 0:
+        return a, "C"
+    if lay == "F":
+        return np.asfortranarray(a), lay
+    if lay == "T":
+        return np.ascontiguousarray(a.T).T, lay                           # F-contiguous view of a C buffer
+    if lay == "colstride":
+        big = np.zeros(a.shape[:-1] + (2 * a.shape[-1],), dtype=a.dtype)
+        v = big[..., ::2]
+        v[...] = a
+        return v, lay
+    if lay == "rowstride":
+        big = np.zeros((2 * a.shape[0],) + a.shape[1:], dtype=a.dtype)
+        v = big[::2]
+        v[...] = a
+        return v, lay
+    if lay == "reversed":
+        v = np.ascontiguousarray(a[::-1])[::-1]                           # negative stride
+        return v, lay
+    if lay == "broadcast":
+        return np.broadcast_to(a[:1], a.shape), lay                       # stride 0, read-only
+    if lay == "offset":
+        big = np.zeros(a.size + 3, dtype=a.dtype)
+        v = big[2:2 + a.size].reshape(a.shape)
+        v[...] = a
+        return v, lay
+    return a, "C"
+
+
+LAYOUT_SEEN = {}
 
 
 def rand_cell_value(rng, kind=None):
@@ -232,8 +275,13 @@ def rand_cell_value(rng, kind=None):
     shape = rand_shape(rng)
     n = int(np.prod(shape)) if shape else 1
     if kind == "iarr":
-        return np.array([rand_int(rng) for _ in range(n)], dtype=np.int64).reshape(shape)
-    return np.array([rand_float(rng) for _ in range(n)], dtype=np.float64).reshape(shape)
+        a = np.array([rand_int(rng) for _ in range(n)], dtype=np.int64).reshape(shape)
+    else:
+        a = np.array([rand_float(rng) for _ in range(n)], dtype=np.float64).reshape(shape)
+    a, lay = with_layout(rng, a)
+    key = f"{a.ndim}d/{lay}" + ("/both>1" if a.ndim == 2 and min(a.shape) > 1 else "")
+    LAYOUT_SEEN[key] = LAYOUT_SEEN.get(key, 0) + 1
+    return a
 
 
 def rand_detail_value(rng, kind):
@@ -652,12 +700,14 @@ def correspondence(ctx):
         tris = [(Triangle([]), {"kind": "empty", "slices": 0, "cells": 0, "keys": 0})]
         tris += make_triangles(ctx, n, must=MUST)
         roundtrip_batch(ctx, drv, tris, scratch, tag="rt")
+        for k, n_ in sorted(LAYOUT_SEEN.items()):
+            ctx.count(f"array-layout/{k}", n_)
         infer_table(ctx, drv, make_triangles(ctx, 6 if ctx.thorough else 2, small=True), scratch)
 
 
 RULE = ("random triangles over the full CellValue x MetadataValue lattice: int (incl. +-2^63 edges), float (random "
         "bit patterns incl. NaN/inf/-0.0), bool, None, np.int64/np.float64 scalars, int64/float64 arrays of 0-3 dims "
-        "incl. empty ones; details of str/int/float/bool/date/None; None/''/non-ASCII strings; limits None/float; "
+        "incl. empty ones in C order, Fortran order, transposed / strided / reversed / offset / broadcast views; details of str/int/float/bool/date/None; None/''/non-ASCII strings; limits None/float; "
         "0-4 slices; three cell classes; 0-400 distinct keys dense at 120-140 and 380-400 (+ fixed 0,136,137,138,392,"
         "393,400); the empty triangle; .trib and .tribc, explicit and inferred compression; extension x flag table. "
         "distinct = distinct raw dump; non-trivial = at least one cell")
